@@ -11,7 +11,7 @@
 (*   couple : one state per (number of formats, number of outfiles);        *)
 (*   gstr / gword : one state per user data text for the typed getters.     *)
 EXTENDS Config, TLC, Json
-CONSTANTS MaxDefine, MaxFiles, MaxPad, MaxGetter, MaxPath, MaxHist
+CONSTANTS MaxDefine, MaxFiles, MaxPad, MaxGetter, MaxPath, MaxHist, MaxSeq
 
 DefAlphabet == {"a", "=", " ", "\"", "'"}
 GetAlphabet == {"1", "0", "7", "-", "+", ".", " ", "x"}
@@ -62,31 +62,40 @@ LaterCons(k) == {[kind |-> k, files |-> fs, cmd |-> c, load |-> l] :
 Histories == UNION {{<<a>> \o t : a \in FirstCons(k), t \in UNION {[1..n -> LaterCons(k)] : n \in 1..(MaxHist - 1)}} : k \in HistKinds}
 NoHist == HistInit(<<[kind |-> "scalar", files |-> <<>>, cmd |-> "absent", load |-> TRUE]>>)
 
-VARIABLES ph, txt, lay, aux, hist
-vars == <<ph, txt, lay, aux, hist>>
-Init == ph = "start" /\ txt = <<>> /\ lay = NoLay /\ aux = NoAux /\ hist = NoHist
-StartDefine == ph = "start" /\ ph' = "dstr" /\ txt' = <<>> /\ UNCHANGED <<lay, aux, hist>>
-GrowDefine  == ph = "dstr" /\ Len(txt) < MaxDefine /\ \E c \in DefAlphabet : txt' = Append(txt, c) /\ UNCHANGED <<ph, lay, aux, hist>>
-StartGetter == ph = "start" /\ ph' = "gstr" /\ txt' = <<>> /\ UNCHANGED <<lay, aux, hist>>
-GrowGetter  == ph = "gstr" /\ Len(txt) < MaxGetter /\ \E c \in GetAlphabet : txt' = Append(txt, c) /\ UNCHANGED <<ph, lay, aux, hist>>
-PickWord   == ph = "start" /\ ph' = "gword" /\ txt' \in BoolPool /\ UNCHANGED <<lay, aux, hist>>
-PickLayer  == ph = "start" /\ ph' = "layer" /\ lay' \in Layers /\ UNCHANGED <<txt, aux, hist>>
-StepLayer  == ph = "layer" /\ ~LayerDone(lay) /\ lay' = LayerStep(lay) /\ UNCHANGED <<ph, txt, aux, hist>>
-PickForm   == ph = "start" /\ ph' = "rsel" /\ UNCHANGED <<txt, lay, hist>>
+\* sequences of getter calls on one object: all orders of 2 getters (incl. repeating one) for every text,
+\* of 3..MaxSeq getters for every text that at least one getter converts
+Getters == {"int", "float", "bool"}
+AnyOk(s) == \E g \in Getters : Outcome(g, s).ok
+GetSeqs(s) == [1..2 -> Getters] \cup (IF AnyOk(s) THEN UNION {[1..n -> Getters] : n \in 3..MaxSeq} ELSE {})
+NoGh == GetInit(<<>>, <<>>)
+
+VARIABLES ph, txt, lay, aux, hist, gh
+vars == <<ph, txt, lay, aux, hist, gh>>
+Init == ph = "start" /\ txt = <<>> /\ lay = NoLay /\ aux = NoAux /\ hist = NoHist /\ gh = NoGh
+StartDefine == ph = "start" /\ ph' = "dstr" /\ txt' = <<>> /\ UNCHANGED <<lay, aux, hist, gh>>
+GrowDefine  == ph = "dstr" /\ Len(txt) < MaxDefine /\ \E c \in DefAlphabet : txt' = Append(txt, c) /\ UNCHANGED <<ph, lay, aux, hist, gh>>
+StartGetter == ph = "start" /\ ph' = "gstr" /\ txt' = <<>> /\ UNCHANGED <<lay, aux, hist, gh>>
+GrowGetter  == ph = "gstr" /\ Len(txt) < MaxGetter /\ \E c \in GetAlphabet : txt' = Append(txt, c) /\ UNCHANGED <<ph, lay, aux, hist, gh>>
+PickWord   == ph = "start" /\ ph' = "gword" /\ txt' \in BoolPool /\ UNCHANGED <<lay, aux, hist, gh>>
+PickLayer  == ph = "start" /\ ph' = "layer" /\ lay' \in Layers /\ UNCHANGED <<txt, aux, hist, gh>>
+StepLayer  == ph = "layer" /\ ~LayerDone(lay) /\ lay' = LayerStep(lay) /\ UNCHANGED <<ph, txt, aux, hist, gh>>
+PickForm   == ph = "start" /\ ph' = "rsel" /\ UNCHANGED <<txt, lay, hist, gh>>
                 /\ \E f \in Forms, n \in Names, v \in Values :
                       aux' = [NoAux EXCEPT !.form = f, !.n = n, !.v = IF f = "bare" THEN <<>> ELSE v]
-PickRender == ph = "rsel" /\ ph' = "render" /\ UNCHANGED <<txt, lay, hist>>
+PickRender == ph = "rsel" /\ ph' = "render" /\ UNCHANGED <<txt, lay, hist, gh>>
                 /\ \E q \in (IF aux.form \in {"qpair", "qvalue"} THEN Quotes ELSE {""}),
                       pd \in {x \in Pads : \A k \in 1..6 : ~UsesPad(aux.form, k) => x[k] = 0} :
                       aux' = [aux EXCEPT !.q = q, !.pads = pd]
-PickPath   == ph = "start" /\ ph' = "path" /\ UNCHANGED <<txt, lay, hist>>
+PickPath   == ph = "start" /\ ph' = "path" /\ UNCHANGED <<txt, lay, hist, gh>>
                 /\ \E c \in Cwds, d \in FileDirs, pa \in BOOLEAN, ps \in SegSeqs(MaxPath) :
                       aux' = [NoAux EXCEPT !.cwd = c, !.d = d, !.p = [abs |-> pa, segs |-> IF pa THEN <<"r">> \o ps ELSE ps]]
-PickCouple == ph = "start" /\ ph' = "couple" /\ UNCHANGED <<txt, lay, hist>>
+PickCouple == ph = "start" /\ ph' = "couple" /\ UNCHANGED <<txt, lay, hist, gh>>
                 /\ \E nf \in 0..3, no \in 0..3 : aux' = [NoAux EXCEPT !.nf = nf, !.no = no]
-PickHist   == ph = "start" /\ ph' = "hist" /\ hist' \in {HistInit(c) : c \in Histories} /\ UNCHANGED <<txt, lay, aux>>
-StepHist   == ph = "hist" /\ ~HistDone(hist) /\ hist' = HistStep(hist) /\ UNCHANGED <<ph, txt, lay, aux>>
-Next == PickHist \/ StepHist \/ StartDefine \/ GrowDefine \/ StartGetter \/ GrowGetter \/ PickWord \/ PickLayer \/ StepLayer \/ PickForm \/ PickRender \/ PickPath \/ PickCouple
+PickHist   == ph = "start" /\ ph' = "hist" /\ hist' \in {HistInit(c) : c \in Histories} /\ UNCHANGED <<txt, lay, aux, gh>>
+StepHist   == ph = "hist" /\ ~HistDone(hist) /\ hist' = HistStep(hist) /\ UNCHANGED <<ph, txt, lay, aux, gh>>
+PickSeq    == ph \in {"gstr", "gword"} /\ ph' = "gseq" /\ gh' \in {GetInit(txt, c) : c \in GetSeqs(txt)} /\ UNCHANGED <<txt, lay, aux, hist>>
+StepSeq    == ph = "gseq" /\ ~GetDone(gh) /\ gh' = GetStep(gh) /\ UNCHANGED <<ph, txt, lay, aux, hist>>
+Next == PickSeq \/ StepSeq \/ PickHist \/ StepHist \/ StartDefine \/ GrowDefine \/ StartGetter \/ GrowGetter \/ PickWord \/ PickLayer \/ StepLayer \/ PickForm \/ PickRender \/ PickPath \/ PickCouple
 Spec == Init /\ [][Next]_vars
 
 \* ---------------------------------------------------------------- layering laws
@@ -148,6 +157,10 @@ GetterLaw ==
    ph \in {"gstr", "gword"} =>
       /\ IntParse(txt).ok => FloatParse(txt).ok
       /\ (BoolParse(txt).ok /\ IntParse(txt).ok) => (BoolParse(txt).b = (IntParse(txt).mag = 1))
+\* whatever was asked before on the same object, a call answers as a first call on the original text
+GetterHistory ==
+   ph = "gseq" => /\ gh.store = txt
+                  /\ \A k \in DOMAIN gh.outs : gh.outs[k] = Outcome(gh.calls[k], txt)
 
 \* ---------------------------------------------------------------- emission
 Emit ==
@@ -160,6 +173,7 @@ Emit ==
                                   pred |-> LayerRun(lay).store])>>)
    /\ ph = "hist" /\ hist.k = 1 /\ hist.cur.pc = 0 =>
          PrintT(<<"CASE", ToJson([k |-> "hist", okind |-> hist.cons[1].kind, cons |-> hist.cons])>>)
+   /\ ph = "gseq" /\ gh.k = 1 => PrintT(<<"CASE", ToJson([k |-> "gseq", text |-> txt, calls |-> gh.calls])>>)
    /\ ph = "path"   => PrintT(<<"CASE", ToJson([k |-> "path", cwd |-> aux.cwd, d |-> aux.d, p |-> aux.p])>>)
    /\ ph = "couple" => PrintT(<<"CASE", ToJson([k |-> "couple", nf |-> aux.nf, no |-> aux.no])>>)
 =============================================================================
